@@ -352,7 +352,7 @@ func (g *c24Gen) stmt(allowOrphans bool) string {
 	case n < 62: // the two halves of CHECK (a + b <= 100), each legal on its own
 		ci, row, val := g.r.Intn(2), base(), []int{0, 60}[g.r.Intn(2)]
 		if g.hot != nil {
-			if h := g.hot.Swap(0); h != 0 && g.r.Intn(2) == 0 {
+			if h := g.hot.Swap(0); h != 0 && g.r.Intn(4) != 0 {
 				row, ci, val = int(h/2), 1-int(h%2), 60
 			} else if val == 60 {
 				g.hot.Store(int64(row*2 + ci))
@@ -446,13 +446,13 @@ func (r *c24TxRun) judge(branch, when string, st *cstate, stats map[string]int) 
 	case "main":
 		if len(st.Viol) > 0 {
 			kinds := kindsOf(st.Viol)
-			c.Violation("c24/txn/committed-state-violates/"+kinds, fmt.Sprintf("the committed working set of a branch written only by sessions with default settings holds %d rows violating %s (%s)", len(st.Viol), kinds, when), wit(st.Viol))
+			report(c, "c24/txn/committed-state-violates/"+kinds, fmt.Sprintf("the committed working set of a branch written only by sessions with default settings holds %d rows violating %s (%s)", len(st.Viol), kinds, when), wit(st.Viol))
 		}
 	case "force":
 		stats["forced_listed_rows_seen"] += st.ListedN
 		if u := st.unlisted(); len(u) > 0 {
 			kinds := kindsOf(u)
-			c.Violation("c24/txn/forced-commit-unlisted/"+kinds, fmt.Sprintf("a branch committed with @@dolt_force_transaction_commit=1 holds %d violating rows (%s) that dolt_constraint_violations does not list (%s)", len(u), kinds, when), wit(u))
+			report(c, "c24/txn/forced-commit-unlisted/"+kinds, fmt.Sprintf("a branch committed with @@dolt_force_transaction_commit=1 holds %d violating rows (%s) that dolt_constraint_violations does not list (%s)", len(u), kinds, when), wit(u))
 		}
 		if len(st.Viol) > 0 {
 			stats["forced_states_with_recorded_violations"]++
@@ -468,7 +468,7 @@ func (r *c24TxRun) judge(branch, when string, st *cstate, stats map[string]int) 
 		}
 		if len(rest) > 0 {
 			kinds := kindsOf(rest)
-			c.Violation("c24/txn/committed-state-violates/fk-checks-off/"+kinds, fmt.Sprintf("a branch written by sessions with foreign_key_checks=0 (all other checks on) holds %d rows violating %s (%s)", len(rest), kinds, when), wit(rest))
+			report(c, "c24/txn/committed-state-violates/fk-checks-off/"+kinds, fmt.Sprintf("a branch written by sessions with foreign_key_checks=0 (all other checks on) holds %d rows violating %s (%s)", len(rest), kinds, when), wit(rest))
 		}
 	}
 }
@@ -585,7 +585,7 @@ func c24tx(c *rig.Ctx) {
 	c.Rule("stage txns — seeded runs: fresh database with parent/child (PK, 2-column UNIQUE with NULLs, single / composite / self-referencing FKs, CHECK a+b<=100) " +
 		"on three branches: main (sessions with default settings: constraints MUST hold in every committed state), force (@@dolt_force_transaction_commit=1: " +
 		"every violating row must be listed in dolt_constraint_violations_<t>), nofk (foreign_key_checks=0: FK excluded, everything else must hold). " +
-		"6-10 wire sessions run transactions of 1-3 hostile single-row statements over a small shared key space (child insert vs parent delete, equal unique " +
+		"7-10 wire sessions run transactions of 1-3 hostile single-row statements over a small shared key space (child insert vs parent delete, equal unique " +
 		"values on different keys, a and b of one row changed by different sessions, re-parenting, sibling links); after every acknowledged COMMIT the branch is " +
 		"read back in a fresh snapshot and evaluated independently; at the end the nofk and force branches are merged into copies of main and the merged " +
 		"state is evaluated (violating rows must be listed). A run is distinct/non-trivial when a commit was rejected for constraint violations and a " +
@@ -594,12 +594,12 @@ func c24tx(c *rig.Ctx) {
 	defer stop()
 	pc := installTxHooks(c.Seed, 400)
 	defer clearTxHooks()
-	nruns := c.Pick(7, 250)
+	nruns := c.Pick(6, 60)
 	tot := map[string]int{}
 	for i := 0; i < nruns; i++ {
 		rr := c.SubRand("c24tx", i)
 		run := &c24TxRun{c: c, srv: srv, db: fmt.Sprintf("c24t_%d", i), run: i}
-		nsess := 6 + rr.Intn(5)
+		nsess := 7 + rr.Intn(4)
 		ntx := 40*3/nsess + 2
 		c.Case(fmt.Sprintf("c24/txns/%d", i), map[string]any{"db": run.db, "sessions": nsess, "tx_per_session": ntx, "note": "statements are generated from SubRand(c24tx/<run>/w, session); replay = same seed"})
 		m0 := pc.merge.Load()
@@ -614,7 +614,7 @@ func c24tx(c *rig.Ctx) {
 		if i < 2 {
 			c.Sample(map[string]any{"db": run.db, "sessions": nsess, "stats": st, "recent_commits": head2(run.recent(), 4)})
 		}
-		if c.Violations() > 20 {
+		if distinctViolationKeys() > 8 {
 			break
 		}
 	}
@@ -629,6 +629,7 @@ func c24tx(c *rig.Ctx) {
 		"not every kind (FK, UNIQUE, CHECK) of jointly violating transaction pair was produced and rejected")
 	c.Require(tot["forced_states_with_recorded_violations"] > 0, "no forced commit kept a violating row")
 	c.Require(tot["evaluations_main"] > 0 && tot["evaluations_force"] > 0 && tot["evaluations_nofk"] > 0, "a branch class was never evaluated")
+	countReported(c, "c24")
 	scanOwnRaceReports(c, "C24", c24RaceFuncs)
 }
 
@@ -655,10 +656,10 @@ func (r *c24TxRun) exec(nsess, ntx int) map[string]int {
 	for i := range workers {
 		wr := c.SubRand(fmt.Sprintf("c24tx/%d/w", r.run), i)
 		w := &c24Worker{id: i, stats: map[string]int{}, g: &c24Gen{r: wr, tag: fmt.Sprintf("s%d", i), idLo: int64(1000 * (i + 1))}}
-		switch {
-		case i%4 == 2:
+		switch { // two sessions each on the excluded branches (so that they race among themselves), the rest on main
+		case i < 2:
 			w.branch = "force"
-		case i%4 == 3:
+		case i < 4:
 			w.branch = "nofk"
 		default:
 			w.branch = "main"
@@ -732,7 +733,7 @@ func (r *c24TxRun) exec(nsess, ntx int) map[string]int {
 				st["end_merge_violating_rows"] += len(s.Viol)
 				if u := s.unlisted(); len(u) > 0 {
 					kinds := kindsOf(u)
-					c.Violation("c24/txn/end-merge-unlisted/"+src+"/"+kinds, fmt.Sprintf("after dolt_merge('%s') into a copy of main %d violating rows (%s) are kept but not listed in dolt_constraint_violations", src, len(u), kinds),
+					report(c, "c24/txn/end-merge-unlisted/"+src+"/"+kinds, fmt.Sprintf("after dolt_merge('%s') into a copy of main %d violating rows (%s) are kept but not listed in dolt_constraint_violations", src, len(u), kinds),
 						map[string]any{"db": r.db, "run": r.run, "violating_rows": u, "state": s.dump()})
 				}
 			}
